@@ -83,8 +83,28 @@ def gen_teardown(rng, n):
             ops.append(msg(0, peer_next, (our_next - 1) % 65536, plen=rng.choice([1, 100, 528])))
             peer_next += 1
             ops.append("P")
-        # teardown
-        for _ in range(rng.range(1, 4)):
+        # teardown, scripted (a third of the cases): we close first, our FIN is acknowledged (or not: FinWait2 / FinWait1),
+        # then the peer's FIN arrives OUT of sequence - its last data segment was lost or overtaken - with or without the
+        # acknowledgement of our FIN, then (sometimes) the missing data and the FIN again, in sequence (seeded C03-b, C04-b)
+        scripted = rng.below(3) == 0
+        if scripted:
+            ops += rng.choice([["H"], ["DR", "DW"], ["H"]]); ops.append("P")
+            fin_acked = rng.below(3) > 0
+            if fin_acked:
+                ops.append(msg(2, peer_next, our_next % 65536)); ops.append("P")          # FinWait2
+            gap = rng.range(1, 3)
+            ops.append(msg(1, peer_next + gap, rng.choice([our_next % 65536, (our_next - 1) % 65536, our_next % 65536])))
+            ops.append(rng.choice(["P", "PP"]))
+            if rng.below(2):
+                for k in range(gap):
+                    ops.append(msg(0, peer_next + k, our_next % 65536, plen=rng.choice([1, 100])))
+                ops.append("P")
+                ops.append(msg(1, peer_next + gap, our_next % 65536)); ops.append("P")
+            if rng.below(2):
+                ops.append("R1000")
+            if rng.below(3) == 0:
+                adv(rng.choice([1_000_000_000, 3_500_000_000])); ops.append("P")
+        for _ in range(0 if scripted else rng.range(1, 4)):
             c = rng.below(10)
             if c == 0:
                 ops.append(msg(1, peer_next, (our_next - 1) % 65536)); peer_next += 1
